@@ -116,22 +116,25 @@ Definition delete_children (i w : nat) (n : pnode) : pnode :=
 Definition delete_at (parent : path) (i w : nat) (d : pnode) : pnode :=
   update_at (delete_children i w) parent d.
 
-(* `+=` on a sequence: the assignment puts back copies of the old children
-   followed by the new ones; the node itself goes through update_from with a
-   content-less copy of itself as `other`, which leaves its attributes alone *)
+(* `+=` on a sequence (addSequences, then UpdateFrom with the sum as `other`):
+   the sum is a content-less copy of the node (same comments, anchor, tag)
+   whose style is reset when the node was empty; UpdateFrom then leaves every
+   attribute as it was except that an empty node takes that (block) style *)
+Definition reset_style_if_empty (a : attrs) (c : list pnode) : attrs :=
+  match c with
+  | [] => mkAttrs (a_head a) (a_line a) (a_foot a) 0 (a_anchor a) (a_tag a)
+  | _ => a
+  end.
+
 Definition append_children (items : list pnode) (n : pnode) : pnode :=
-  match n with PNode k a v c => PNode k a v (c ++ items) end.
+  match n with PNode k a v c => PNode k (reset_style_if_empty a c) v (c ++ items) end.
 
 (* traverseMap auto-creation: new key/value at the end; an empty map gives up
    its (flow) style *)
 Definition create_key (key value : pnode) (n : pnode) : pnode :=
   match n with
   | PNode k a v c =>
-      let a' := match c with
-                | [] => mkAttrs (a_head a) (a_line a) (a_foot a) 0 (a_anchor a) (a_tag a)
-                | _ => a
-                end in
-      PNode k a' v (c ++ [key; value])
+      PNode k (reset_style_if_empty a c) v (c ++ [key; value])
   end.
 
 (* ------------------------------------------------------------------ *)
@@ -148,3 +151,97 @@ Fixpoint table_fuel (fuel : nat) (prefix : path) (n : pnode) : list (path * attr
          | c :: r => table_fuel f (prefix ++ [i]) c ++ go (S i) r
          end) 0%nat (n_content n)
   end.
+
+(* ------------------------------------------------------------------ *)
+(* serialisation for the correspondence check                           *)
+(* ------------------------------------------------------------------ *)
+Fixpoint dec_nat_fuel (fuel : nat) (n : nat) (acc : str) : str :=
+  match fuel with
+  | O => acc
+  | S f => let acc' := (48 + N.of_nat (Nat.modulo n 10)) :: acc in
+           match Nat.div n 10 with O => acc' | m => dec_nat_fuel f m acc' end
+  end.
+Definition dec_nat (n : nat) : str := dec_nat_fuel 20 n [].
+
+Fixpoint show_path (p : path) : str :=
+  match p with
+  | [] => []
+  | i :: r => 47 :: dec_nat i ++ show_path r
+  end.
+
+Definition kind_code (k : kind) : N :=
+  match k with KScalar => 115 | KSeq => 113 | KMap => 109 | KAlias => 97 end.
+
+(* one line per node: path US kind US style US anchor US tag US value LF.
+   Comments are shown apart (below): which of two adjacent nodes a comment is
+   attributed to is decided by yaml.v3 when it reads the text back, so the
+   table compares the comments as one sequence in document order. *)
+Definition show_node_line (p : path) (n : pnode) : str :=
+  let a := n_attrs n in
+  (* an empty collection can only be printed as [] or {}: its style is not observable *)
+  let st := match n_kind n, n_content n with
+            | KSeq, [] | KMap, [] => 0%N
+            | _, _ => a_style a
+            end in
+  show_path p ++ 31 :: kind_code (n_kind n) :: 31 ::
+  dec_nat (N.to_nat st) ++ 31 :: a_anchor a ++ 31 :: a_tag a ++ 31 :: n_value n ++ [10].
+
+Fixpoint show_tree_fuel (fuel : nat) (prefix : path) (n : pnode) : str :=
+  match fuel with
+  | O => []
+  | S f =>
+      show_node_line prefix n ++
+      (fix go (i : nat) (cs : list pnode) : str :=
+         match cs with
+         | [] => []
+         | c :: r => show_tree_fuel f (prefix ++ [i]) c ++ go (S i) r
+         end) 0%nat (n_content n)
+  end.
+
+Definition cmt (c : str) : str := match c with [] => [] | _ => c ++ [30] end.
+
+(* comments in document order: head, line, the children, foot; for a map
+   entry the key's foot comment comes after the value *)
+Fixpoint comments_fuel (fuel : nat) (n : pnode) : str :=
+  match fuel with
+  | O => []
+  | S f =>
+      let a := n_attrs n in
+      cmt (a_head a) ++ cmt (a_line a) ++
+      match n_kind n with
+      | KMap =>
+          (fix go (cs : list pnode) : str :=
+             match cs with
+             | k :: v :: r =>
+                 cmt (a_head (n_attrs k)) ++ cmt (a_line (n_attrs k)) ++ comments_fuel f v ++ cmt (a_foot (n_attrs k)) ++ go r
+             | _ => []
+             end) (n_content n)
+      | _ =>
+          (fix go (cs : list pnode) : str :=
+             match cs with
+             | [] => []
+             | c :: r => comments_fuel f c ++ go r
+             end) (n_content n)
+      end ++ cmt (a_foot a)
+  end.
+
+Definition show_tree (n : pnode) : str := show_tree_fuel 40 [] n ++ 35 :: comments_fuel 40 n.
+
+(* the updates the check sends: applied to the tree the independent parser
+   read from `yq .`, result shown as a table *)
+Inductive upd :=
+| UAssign (p : path) (other : pnode)         (* PATH = scalar / PATH |= scalar *)
+| UDelete (parent : path) (i w : nat)        (* del(PATH) *)
+| UAppend (p : path) (items : list pnode)    (* PATH += [...] *)
+| UCreate (p : path) (key value : pnode).    (* PATH.new = v *)
+
+Definition apply_upd (guess : str -> str) (u : upd) (d : pnode) : pnode :=
+  match u with
+  | UAssign p other => update_at (update_from guess plain_assign other) p d
+  | UDelete parent i w => delete_at parent i w d
+  | UAppend p items => update_at (append_children items) p d
+  | UCreate p key value => update_at (create_key key value) p d
+  end.
+
+Definition c_apply (inp : upd * pnode) : str :=
+  show_tree (apply_upd (fun _ => []) (fst inp) (snd inp)).
